@@ -15,4 +15,5 @@ Inductive ev :=
 | SwitchE (cases : list (list ev))
 | GoE (body : list ev)
 | DeferE (body : list ev)
-| Ret.
+| Ret
+| Cont | Brk.                        (* continue / break, only when the extractor is asked for them *)
